@@ -186,3 +186,81 @@ def val(v):
 
 TRUE = True
 FALSE = False
+
+
+_QN = [0]
+
+
+def ForAll(lo, hi, fn, nvars=1):
+    """forall k in [lo, hi): fn(k)   (native: iterate; symbolic: quantifier)."""
+    if not (is_sym(lo) or is_sym(hi)) and z3 is None:
+        return all(bool(fn(k)) for k in range(int(lo), int(hi)))
+    if not (is_sym(lo) or is_sym(hi)) and isinstance(hi, int) and isinstance(lo, int) and hi - lo <= 8:
+        return And(*[fn(k) for k in range(lo, hi)]) if hi > lo else True
+    _QN[0] += 1
+    k = z3.Int("q!%d" % _QN[0])
+    body = fn(k)
+    if not is_sym(body):
+        body = z3.BoolVal(bool(body))
+    return z3.ForAll([k], z3.Implies(z3.And(k >= lo, k < hi), body))
+
+
+def Exists(lo, hi, fn):
+    if not (is_sym(lo) or is_sym(hi)) and z3 is None:
+        return any(bool(fn(k)) for k in range(int(lo), int(hi)))
+    if not (is_sym(lo) or is_sym(hi)) and isinstance(hi, int) and isinstance(lo, int) and hi - lo <= 8:
+        return Or(*[fn(k) for k in range(lo, hi)]) if hi > lo else False
+    _QN[0] += 1
+    k = z3.Int("q!%d" % _QN[0])
+    body = fn(k)
+    if not is_sym(body):
+        body = z3.BoolVal(bool(body))
+    return z3.Exists([k], z3.And(k >= lo, k < hi, body))
+
+
+def str_eq(a, b):
+    """String equality (ids, commands)."""
+    if is_sym(a) or is_sym(b):
+        if a is None or b is None:
+            return False
+        return lift(a) == lift(b)
+    return a == b
+
+
+class OpaqueFn(object):
+    """A spec function hidden behind an uninterpreted symbol (opaque / reveal discipline).
+
+    op(*args)        -> application of the uninterpreted symbol (natively: the definition's value)
+    op.reveal(*args) -> the definitional equation  op(args) == definition(args)  for these arguments.
+    Because only instances of the definition can be produced, `reveal` cannot be used to assume
+    anything that is not true of the defined function."""
+
+    def __init__(self, name, definition):
+        self.name = name
+        self.definition = definition
+        self._fn = None
+
+    def _decl(self, args):
+        if self._fn is None:
+            sorts = [lift(a).sort() if not isinstance(a, bool) else z3.BoolSort() for a in args]
+            self._fn = z3.Function("spec." + self.name, *(sorts + [z3.BoolSort()]))
+        return self._fn
+
+    def __call__(self, *args):
+        if z3 is None or not _anysym(args):
+            return self.definition(*args)
+        la = [lift(a) for a in args]
+        return self._decl(la)(*la)
+
+    def reveal(self, *args):
+        if z3 is None or not _anysym(args):
+            return True
+        la = [lift(a) for a in args]
+        d = self.definition(*args)
+        if not is_sym(d):
+            d = z3.BoolVal(bool(d))
+        return self._decl(la)(*la) == d
+
+
+def opaque(name, definition):
+    return OpaqueFn(name, definition)
